@@ -539,6 +539,22 @@ func c10Canary(c *core.Collector, addr string, id int, stop *atomic.Bool, rounds
 	}
 }
 
+// serverAnswersFreshConnection tells a stalled CONNECTION from a slow MACHINE: when an established conversation has been silent
+// for its whole watchdog period, two fresh connections in a row that are served within 500 ms each mean the server is alive and
+// responsive — the missing reply is then a missing reply (violation), not a matter of patience (inconclusive).
+var probeSeq atomic.Int64
+
+func serverAnswersFreshConnection(addr string) bool {
+	for k := 0; k < 2; k++ {
+		t0 := time.Now()
+		ok, to := c10Probe(addr, 9900000+int(probeSeq.Add(1)))
+		if to || !ok || time.Since(t0) > 500*time.Millisecond {
+			return false
+		}
+	}
+	return true
+}
+
 func c10Probe(addr string, n int) (ok bool, timedOut bool) {
 	t, err := svc.Dial(addr, false, fmt.Sprintf("%d", 9200000+n))
 	if err != nil {
